@@ -130,3 +130,217 @@ def build_c11(rng, tier):
 
 BUILDERS = {'C01': build_c01, 'C02': build_c02, 'C03': build_c03,
             'C04': build_c04, 'C05': build_c05, 'C11': build_c11}
+
+
+# ---------------------------------------------------------------------------
+# C14: fault plans under a simulated clock
+# ---------------------------------------------------------------------------
+STATUS_FAULTS = ['status:Infeasible', 'status:Unbounded', 'status:Undefined',
+                 'status:Not Solved']
+VALUE_MODES = ['zeros', 'stale', 'garbage']
+LIMITS = [5, 60.0, 600, 3600.0]
+
+
+def build_c14(rng, tier):
+    inst = instances.gen_instance(rng, {}, thorough=False)
+    mr = maxrank_of(inst)
+    k = rng.choice([0, 1, 1, 2, 2, 3])
+    pool = CRIT + ['gen', 'gre', 'gen', 'gre']
+    names = []
+    while len(names) < k:
+        n = rng.choice(pool)
+        if n not in names:
+            names.append(n)
+    opts = {'criteria': gen_criteria(rng, k, mr, names=names),
+            'pc': rng.random() < 0.25,
+            'stab': rng.random() < 0.3 and inst['twopl']}
+    limit = rng.choice([None] + LIMITS + LIMITS)
+    ops = [['solve', {'timeLimit': limit}], ['get_results'],
+           ['get_results_short'], ['get_results_long']]
+    sc = lp_base(rng, inst, opts, ops=ops, policy='uniform')
+    sc['limit'] = limit
+    return sc
+
+
+def clock_plan(rng, limit, K):
+    n = K + 3
+    if limit is None:
+        return [10 ** rng.uniform(-5, 4) for _ in range(n)]
+    mode = rng.choice(['fast', 'fast', 'one-long', 'sum-exceeds',
+                       'slow-under'])
+    if mode == 'fast':
+        return [10 ** rng.uniform(-5, -2) for _ in range(n)]
+    if mode == 'one-long':
+        d = [10 ** rng.uniform(-5, -2) for _ in range(n)]
+        d[rng.randrange(max(1, K))] = limit * rng.uniform(1.5, 10)
+        return d
+    if mode == 'sum-exceeds':
+        return [limit * rng.uniform(0.3, 0.7) for _ in range(n)]
+    return [limit * 0.8 / n * rng.uniform(0.2, 1.0) for _ in range(n)]
+
+
+def c14_plans(rng, K, limit, tier):
+    """All single faults, plus a seeded sample of pairs."""
+    kinds = list(STATUS_FAULTS)
+    if limit is not None:
+        kinds += ['tl-incumbent', 'tl-no-incumbent']
+    plans = []
+    for pos in range(1, K + 1):
+        for kind in kinds:
+            for persist in (False, True):
+                modes = VALUE_MODES if tier == 'thorough' else \
+                    [rng.choice(VALUE_MODES)]
+                for vm in modes:
+                    plans.append([{'round': pos, 'kind': kind,
+                                   'persist': persist, 'values': vm}])
+    npairs = 12 if tier == 'thorough' else 4
+    for _ in range(npairs if K >= 1 else 0):
+        a = rng.randint(1, K)
+        b = rng.randint(1, K + 1)
+        if a == b:
+            b = a + 1
+        plans.append([{'round': a, 'kind': rng.choice(kinds),
+                       'persist': False, 'values': rng.choice(VALUE_MODES)},
+                      {'round': b, 'kind': rng.choice(kinds),
+                       'persist': rng.random() < 0.5,
+                       'values': rng.choice(VALUE_MODES)}])
+    return plans
+
+
+# ---------------------------------------------------------------------------
+# C16: criteria order and refusals
+# ---------------------------------------------------------------------------
+def build_c16(rng, tier):
+    kind = rng.choice(['order', 'order', 'order', 'refuse', 'refuse',
+                       'fault-prefix'])
+    inst = instances.gen_instance(rng, {}, thorough=False)
+    mr = maxrank_of(inst)
+    if kind in ('order', 'fault-prefix'):
+        k = rng.choice([1, 2, 2, 3, 3, 4, 5, 9])
+        opts = gen_opts(rng, inst, ncrit=k)
+        for c in opts['criteria']:
+            if c['name'] in ('gen', 'gre') and rng.random() < 0.5:
+                c['extra'] = gen_extra(rng, c['name'], mr, always=True)
+        sc = lp_base(rng, inst, opts, ops=[['solve', {}], ['get_results'],
+                                           ['get_results_long']])
+        sc['c16'] = kind
+        return sc
+    # refusals
+    why = rng.choice(['pos-out-of-range', 'pos-out-of-range', 'duplicate-pos',
+                      'stab-without-twopl'])
+    k = rng.choice([1, 2, 3, 4])
+    opts = gen_opts(rng, inst, ncrit=k, stab=False)
+    crit = opts['criteria']
+    twopl = inst['twopl']
+    if why == 'pos-out-of-range':
+        c = rng.choice(crit)
+        c['pos'] = rng.choice([-1, 0, 10, 11, -5, 12, 100])
+    elif why == 'duplicate-pos':
+        if len(crit) < 2:
+            others = [n for n in CRIT if n != crit[0]['name']]
+            n = rng.choice(others)
+            crit.append({'name': n, 'pos': crit[0]['pos'],
+                         'extra': gen_extra(rng, n, mr)})
+        else:
+            a, b = rng.sample(range(len(crit)), 2)
+            crit[b]['pos'] = crit[a]['pos']
+    else:
+        opts['stab'] = True
+        twopl = False
+    sc = lp_base(rng, inst, opts, ops=[['solve', {}], ['get_results']])
+    sc['twopl'] = twopl
+    if why == 'stab-without-twopl':
+        # build_argv drops -stab for one-sided instances only through
+        # gen_opts; here we want it on the command line without -twopl
+        sc['inst'] = dict(inst, twopl=False)
+        sc['force_stab'] = True
+    sc['c16'] = 'refuse'
+    sc['refuse'] = why
+    sc['no_file'] = rng.random() < 0.4
+    return sc
+
+
+# ---------------------------------------------------------------------------
+# C18: API histories
+# ---------------------------------------------------------------------------
+GETTERS = ['get_results', 'get_results_short', 'get_results_long',
+           'get_debug']
+
+
+def build_c18(rng, tier):
+    inst = instances.gen_instance(rng, {'zero_cap': rng.random() < 0.4},
+                                  thorough=False)
+    bf = rng.random() < 0.2
+    if bf:
+        opts = {'criteria': [], 'pc': rng.random() < 0.4, 'stab': False,
+                'bf': True}
+    else:
+        opts = gen_opts(rng, inst)
+    n = rng.randint(2, 12)
+    ops = [['solve', {'timeLimit': rng.choice([None, None, 10 ** 9])}]]
+    while len(ops) < n:
+        x = rng.random()
+        if x < 0.2:
+            ops.append(['solve', {'timeLimit': rng.choice([None, None,
+                                                          10 ** 9])}])
+        elif x < 0.3:
+            ops.append(['idle', {'seconds': 10 ** rng.uniform(-3, 4)}])
+        else:
+            ops.append([rng.choice(GETTERS)])
+    if not any(o[0] in GETTERS for o in ops):
+        ops.append([rng.choice(GETTERS)])
+    return lp_base(rng, inst, opts, ops=ops, policy='uniform')
+
+
+# ---------------------------------------------------------------------------
+# C06: Byzantine back end under -stab
+# ---------------------------------------------------------------------------
+def quota_respecting_assignments(I):
+    """All assignments to acceptable projects that respect project and
+    lecturer UPPER quotas (lower quotas ignored)."""
+    out = []
+    for M in rm.all_assignments(I):
+        pc, lc = rm.counts(I, M)
+        if all(pc[j] <= I.puq[j] for j in range(I.n2)) and \
+                all(lc[k] <= I.luq[k] for k in range(I.n3)):
+            out.append(M)
+    return out
+
+
+def build_c06(rng, tier):
+    sw = {'twopl': True, 'zero_cap': rng.random() < 0.5,
+          'ties2': rng.choice([0, .3, .5, .7, 1]), 'lowq': False}
+    inst = instances.gen_instance(rng, sw, thorough=False)
+    opts = {'criteria': [], 'pc': rng.random() < 0.2, 'stab': True,
+            'flag_order': None}
+    if rng.random() < 0.25:
+        # corollary: fault-free -stab run prints stability_correct: True
+        opts = gen_opts(rng, inst, ncrit=rng.choice([0, 1, 2]), stab=True)
+        opts['stab'] = True
+        sc = lp_base(rng, inst, opts, ops=[['solve', {}], ['get_results'],
+                                           ['get_results_long']])
+        sc['byz'] = None
+        return sc
+    I = rm.parse(instances.render(inst), inst['na'], True)
+    cands = quota_respecting_assignments(I)
+    st = [M for M in cands if rm.stable(I, M)]
+    un = [M for M in cands if not rm.stable(I, M)]
+    n = rng.randint(2, 8)
+    byz = []
+    for _ in range(n):
+        pool = st if (rng.random() < 0.5 and st) or not un else un
+        byz.append(list(rng.choice(pool)))
+    ops = []
+    for _ in range(n):
+        ops.append(['solve', {}])
+        ops.append([rng.choice(['get_results', 'get_results_short',
+                                'get_results_long'])])
+    sc = lp_base(rng, inst, opts, ops=ops, policy='uniform')
+    sc['backend']['faults'] = [{'round': 1, 'kind': 'byzantine',
+                                'persist': True}]
+    sc['byz'] = byz
+    return sc
+
+
+BUILDERS.update({'C14': build_c14, 'C16': build_c16, 'C18': build_c18,
+                 'C06': build_c06})
